@@ -67,9 +67,10 @@ type c06Case struct {
 	FinLag    int
 	Chunk     uint64
 	Forks     []c06Fork
-	Grow      []int // blocks appended (with logs) after each fork
-	RestartAt int   // -1 or RPC ordinal at which detector+syncer are stopped and restarted
-	Second    bool  // a second syncer (its own contract, its own store) shares the reorg detector
+	Grow      []int  // blocks appended (with logs) after each fork
+	RestartAt int    // -1 or RPC ordinal at which detector+syncer are stopped and restarted
+	Second    bool   // a second syncer (its own contract, its own store) shares the reorg detector
+	Chunk2    uint64 // chunk size configured from the first restart on (0: unchanged)
 }
 
 func c06Gen(rt *rapid.T) c06Case {
@@ -100,6 +101,9 @@ func c06Gen(rt *rapid.T) c06Case {
 		c.Grow = append(c.Grow, rapid.IntRange(0, 3).Draw(rt, "grow"))
 	}
 	c.Second = rapid.IntRange(0, 2).Draw(rt, "secondSyncer") > 0
+	if rapid.IntRange(0, 2).Draw(rt, "newChunkAfterRestart") == 0 {
+		c.Chunk2 = uint64(rapid.SampledFrom([]int{1, 2, 3, 5, 50}).Draw(rt, "chunk2"))
+	}
 	c.RestartAt = -1
 	if rapid.IntRange(0, 3).Draw(rt, "restart") == 0 {
 		c.RestartAt = rapid.IntRange(5, 150).Draw(rt, "restartAt")
@@ -421,7 +425,12 @@ func c06Run(c c06Case) (res c06Result) {
 	rdPath := storePath + ".rd"
 	var cur *l1infotreesync.L1InfoTreeSync
 	rec2 := &c06Rec{}
+	starts := 0
 	start := func(ctx context.Context) (chan struct{}, error) {
+		starts++
+		if starts > 1 && c.Chunk2 > 0 {
+			c.Chunk = c.Chunk2 // the operator changed the chunk size before restarting
+		}
 		rd, err := reorgdetector.New(chain, reorgdetector.Config{DBPath: rdPath, CheckReorgsInterval: cfgtypes.NewDuration(time.Millisecond), FinalizedBlock: aggkittypes.FinalizedBlock}, reorgdetector.L1)
 		if err != nil {
 			return nil, err
